@@ -185,3 +185,5 @@ func firstLineOf(s string) string {
 	}
 	return s
 }
+
+type jsonRaw = json.RawMessage
